@@ -1383,7 +1383,7 @@ Lemma lig_loop_S : forall actions comps ligs ps cur ml ai lidx b,
          match nth_error comps (Z.to_nat ci) with
          | None => Ok (ml, b1, AMB_TABLE)
          | Some cv =>
-           let lidx' := ((lidx + cv) mod 65536)%N in
+           let lidx' := (lidx + cv)%N in
            if has action 0xC0000000 then
              match nth_error ligs (N.to_nat lidx') with
              | None => Ok (ml, b1, AMB_TABLE)
@@ -1416,7 +1416,7 @@ Lemma lig_pair_exact : forall actions comps ligs ps0 e b ops c' b' ops' a P xa x
   nth_error comps (Z.to_nat (Z.of_N (gid xb) + lig_offset act0)) = Some c0 ->
   (Z.of_N (gid xa) + lig_offset act1 <? 0)%Z = false ->
   nth_error comps (Z.to_nat (Z.of_N (gid xa) + lig_offset act1)) = Some c1 ->
-  nth_error ligs (N.to_nat (((0 + c0) mod 65536 + c1) mod 65536)) = Some lig ->
+  nth_error ligs (N.to_nat (0 + c0 + c1)) = Some lig ->
   lig_transition actions comps ligs (1, ps0) e b ops = Ok (c', b', ops', a) -> ok b' = true ->
   map gid (arr b') = map gid P ++ [lig; DELETED_GLYPH] ++ map gid t /\ length (pre b') = length P + 1 /\
   (exists b4 b5, pre b4 = P ++ [set_gid xa lig; set_gid xb DELETED_GLYPH] /\ rest b4 = t /\ level b4 = level b /\
